@@ -21,11 +21,12 @@ static fiber_t* F;
 static fiber_t* other[3];
 static int g_returned, g_join_ok, g_gate;
 static void* const VAL = (void*)0x5151;
-static int g_detached, g_join_begun;
+static int g_detached, g_join_begun, g_destroyed;
 
 // called by the --wrap observer when the runtime reclaims a fiber
 void fmc_on_fiber_destroy(fiber_t* f) {
   if (f != F) return;
+  g_destroyed++;
   if (!g_returned) fmc_fail("join: fiber reclaimed before its function returned");
   // the finished fiber is woken from inside fiber_join, so it may be reclaimed before the
   // joiner returns: "a join, tryjoin or detach on it has begun" is what can be required here
@@ -124,6 +125,20 @@ static void* jres(fiber_t* f) {
   return r;
 }
 
+// "reclaimed once" has a liveness half: when every kernel thread has gone idle, a fiber whose function
+// returned and which was joined successfully or detached must have been reclaimed (a finished fiber
+// that parks itself waiting for a joiner that can no longer come is a leak of its stack and record)
+static int end_hook(void) {
+  if (fmc_oracle_mask() & FMC_O_WAKES) {
+    const char* m = fmc_wrap_end_check();
+    if (m) fmc_fail("%s", m);
+  }
+  if (g_returned && (g_join_ok || g_detached) && !g_destroyed)
+    fmc_fail("join: the fiber finished and was %s, but it was never reclaimed (every kernel thread is idle)", g_detached ? "detached" : "joined");
+  fmc_end();
+  return 0;
+}
+
 int harness_main(void) {
   sc = fmc_param("sc", 1);
   rt_start();
@@ -206,6 +221,6 @@ int harness_main(void) {
       break;
     }
   }
-  rt_finish();
+  rt_park_until_quiescent(end_hook);
   return 0;
 }
